@@ -235,13 +235,13 @@ def run_impl(p):
                 if ra.size:
                     ra.fill(np.ones(1, dtype=ra.dtype)[0])
                     if canon(res) != keep:
-                        raise AssertionError("a mask selection changed when its source was written to")
+                        raise engine.Inconsistent("a mask selection changed when its source was written to")
                     ra.ravel()[...] = src_before
                 flat = res.ravel() if hasattr(res, "ravel") else res
                 if isinstance(flat, np.ndarray) and flat.size and flat.flags.writeable:
                     flat[...] = np.zeros(1, dtype=flat.dtype)[0] if flat[0] != 0 else np.ones(1, dtype=flat.dtype)[0]
                     if np.asarray(ra.ravel()).tobytes() != src_before.tobytes():
-                        raise AssertionError("writing into a mask selection changed its source")
+                        raise engine.Inconsistent("writing into a mask selection changed its source")
                 return keep
             if f == "ragged_slice":
                 kw = {}
